@@ -7,8 +7,10 @@ package vm
 //@ func (AccountManager).GetAccount   pure trusted
 //@   opt heap-independent
 //@   ensures result != nil
+// gh("snaps", manager) counts the snapshots taken
 //@ func (AccountManager).Snapshot   trusted
-//@   modifies nothing
+//@   modifies gh("snaps", recv)
+//@   ensures gh("snaps", recv) == old(gh("snaps", recv)) + 1
 //@ func (AccountManager).RevertToSnapshot   trusted
 //@   modifies ghall("equity"), ghall("hasEquity"), ghall("supply"), ghall("balance"), gh("lastRevert", recv)
 //@   ensures gh("lastRevert", recv) == arg0
@@ -82,6 +84,8 @@ package vm
 //@   ensures result1 <= gas
 //@   ensures old(evm.depth) > int(params.CallCreateDepth) && !(old(evm.vmConfig.NoRecursion) && old(evm.depth) > 0) ==> result2 == ErrDepth && result1 == gas
 //@   assert @call run#0: evm.depth <= int(params.CallCreateDepth)
+// all-or-nothing includes the value: the transfer happens inside the snapshot that a failure reverts to
+//@   assert @call dyn#1: gh("snaps", evm.am) > old(gh("snaps", evm.am))
 //@   ensures result2 != nil && result2 != ErrDepth && result2 != ErrInsufficientBalance && result2 != ErrContractCodeLoadFail ==> gh("lastRevert", evm.am) == snapshot
 //@   ensures evm.interpreter == old(evm.interpreter) && evm.interpreter.readOnly == old(evm.interpreter.readOnly)
 
@@ -140,3 +144,12 @@ package vm
 //@   props C16
 //@   requires evm != nil && contract != nil && mem != nil && stackOK(stack, 6) && operand(stack, 0) >= 0 && gt.Calls <= 1<<32
 //@   ensures result1 == nil ==> int(result0) >= int(evm.callGasTemp)
+
+// Create, up to the point where the init code starts to run: depth bound, and the endowment is transferred inside the snapshot
+// that a failed creation reverts to (what happens after the run is not explored: opt stop-at)
+//@ func (*EVM).Create
+//@   props C16
+//@   requires evm != nil && caller != nil && value != nil
+//@   opt stop-at=run#0
+//@   ensures old(evm.depth) > int(params.CallCreateDepth) ==> result3 == ErrDepth && result2 == gas
+//@   assert @call dyn#1: gh("snaps", evm.am) > old(gh("snaps", evm.am))
